@@ -37,6 +37,7 @@ import (
 	"strconv"
 	"strings"
 	"sync"
+	"sync/atomic"
 	"testing"
 	"time"
 
@@ -839,6 +840,70 @@ func cbkConcurrent(r *h.Report, base int, round int) {
 	r.Dist["concurrent:served-by-a-racing-arrival"] += early
 }
 
+// cbkConcurrentSame: "registering the same callback twice for one counter is refused" when the registrations come from
+// several goroutines at once (monitor only). Per round a fresh counter; N goroutines, released together, register
+// the SAME function (closures of one function literal: one code pointer, the identity AddResponseCallback uses) for
+// it; exactly one call may be accepted; then one matching reply arrives: exactly one invocation.
+func cbkConcurrentSame(r *h.Report, base int, rounds int) {
+	const n = 8
+	w := newCbkWorld(true)
+	defer func() { w.close(); cbkSettle(base) }()
+	cbkSettle(base)
+	twice, invTwice := 0, 0
+	for round := 0; round < rounds; round++ {
+		ops := []string{fmt.Sprintf("concurrent-same round %d: %d goroutines register the same function for counter %d of feature 1 at once, then one reply", round, n, 100+round)}
+		ctr := model.MsgCounterType(100 + round)
+		start := make(chan struct{})
+		var wg, ready sync.WaitGroup
+		var accepted int32
+		for g := 0; g < n; g++ {
+			id := 100000 + round*n + g
+			wg.Add(1)
+			ready.Add(1)
+			go func() {
+				defer wg.Done()
+				f := cbkMk1(w.log, id)
+				ready.Done()
+				<-start
+				if w.feats[1].AddResponseCallback(ctr, f) == nil {
+					atomic.AddInt32(&accepted, 1)
+				}
+			}()
+		}
+		ready.Wait()
+		close(start)
+		wg.Wait()
+		_, cmd, _ := cbkPayload(1, "reply", 9000+round, 1)
+		w.ctr++
+		w.send(1, 1, model.CmdClassifierTypeReply, w.ctr, &ctr, cbkSrc(1, 1), cmd)
+		if !cbkSettle(base) {
+			r.SpecFail("C14/callback-blocked", ops, "callbacks did not return")
+			return
+		}
+		inv := 0
+		for _, x := range w.log.take() {
+			if x.reg >= 100000 {
+				inv++
+			}
+		}
+		r.Eval("concurrent-same-round", "")
+		switch {
+		case accepted == 0:
+			r.SpecFail("C14/distinct-callback-refused", ops, fmt.Sprintf("all %d registrations of a function that was registered nowhere were refused", n))
+			return
+		case accepted > 1:
+			twice++
+			r.SpecFail("C14/same-callback-registered-twice", ops, fmt.Sprintf("%d goroutines registered the same function (one code pointer) for counter %d of one feature at the same time: %d of the calls were accepted (the statement: registering the same callback twice for one counter is refused); the one reply that followed invoked it %d times", n, ctr, accepted, inv))
+			return
+		case inv != 1:
+			invTwice++
+			r.SpecFail("C14/callback-invoked-twice", ops, fmt.Sprintf("one registration accepted, one matching reply: %d invocations", inv))
+			return
+		}
+	}
+	r.Info["concurrent-same"] = fmt.Sprintf("%d rounds of %d goroutines registering one function for one counter at once: one accepted, one invocation each", rounds, n)
+}
+
 func TestCallbacks(t *testing.T) {
 	r := h.NewReport("callbacks", "random histories of AddResponseCallback (3 function literals, 1-4 counters, node management + 6 client features on hierarchical local entities [1],[1,1],[2],[2,1] with repeated feature ids), AddResultCallback and inbound datagrams from two peers (full replies, replies with partial / partial+selector / delete filters merged into cached list data, discovery replies, results with and without error, rejected replies, replies without reference, notifies with reference, malformed results, unknown source) through HandleSpineMesssage, compared op by op with Spine.CB (registrations invoked by the arrival with the data and origin handed over); non-trivial = a history with a response-callback invocation, a refused registration and a result-callback invocation (distinct by op text). Concurrent registration rounds and the cross-peer observation: SPEC monitor only.")
 	defer r.Write()
@@ -874,6 +939,10 @@ func TestCallbacks(t *testing.T) {
 	base = h.Baseline()
 	info := map[string]int{}
 	if ops := h.ReplayOps("callbacks"); ops != nil {
+		if len(ops) > 0 && strings.HasPrefix(ops[0], "concurrent-same") {
+			cbkConcurrentSame(r, base, h.Scale(1500, 8000))
+			return
+		}
 		if len(ops) > 0 && strings.HasPrefix(ops[0], "concurrent") {
 			cbkConcurrent(r, base, 0)
 			return
@@ -959,4 +1028,5 @@ func TestCallbacks(t *testing.T) {
 	for round := 0; round < h.Scale(60, 600); round++ {
 		cbkConcurrent(r, base, round)
 	}
+	cbkConcurrentSame(r, base, h.Scale(1500, 8000))
 }
